@@ -12,10 +12,16 @@ fi
 # 1. forbidden-construct gate (Variable/Hypothesis are allowed inside Sections only)
 python3 tools/gate.py || { echo "BUILD-GATE: forbidden construct found" >&2; exit 2; }
 # 1b. regenerate the translated layer from /repo's CURRENT source (fail closed: on a translation
-#     error the generated file is removed, so that exactly the theorems that depend on it stop building)
+#     error the generated file and its compiled forms are removed, so that exactly the theorems that depend on it stop building)
 for tr in scalars effects planes tables; do
   if [ -f harness/translate/$tr.py ]; then
-    python3 harness/translate/$tr.py > build/translate_$tr.log 2>&1 || { cat build/translate_$tr.log >&2; case $tr in scalars) rm -f coq/theories/Gen/Scalars.v;; effects) rm -f coq/theories/Gen/Effects.v;; planes) rm -f coq/theories/Gen/Planes.v;; tables) rm -f coq/theories/Gen/Tables.v;; esac; }
+    if ! python3 harness/translate/$tr.py > build/translate_$tr.log 2>&1; then
+      cat build/translate_$tr.log >&2
+      case $tr in scalars) g=Scalars;; effects) g=Effects;; planes) g=Planes;; tables) g=Tables;; esac
+      # remove the generated source AND its compiled forms: a stale .vo would let the dependent theorems go on checking against
+      # what the code USED to say
+      rm -f coq/theories/Gen/$g.v coq/theories/Gen/$g.vo coq/theories/Gen/$g.vok coq/theories/Gen/$g.vos coq/theories/Gen/$g.glob coq/theories/Gen/.$g.aux
+    fi
   fi
 done
 cd coq
